@@ -142,12 +142,12 @@ Proof.
 Qed.
 
 Theorem walk_root_is_walk_md c cb input rows t st' :
-  c_dry c = false -> is_default (c_enc c) = true ->
+  c_dry c = false ->
   scan_lines input = (rows, ScanEOF) -> parses p0 rows (forest_items [t]) st' -> nodup_sib t ->
   walk_md c cb input = walk_root (c_bf c) cb t.
 Proof.
-  intros Hd He Hs Hp Hn. destruct (gen_single _ _ _ _ Hs Hp Hn) as [Ha _].
-  unfold walk_md, walk_root. rewrite Ha. cbn [grow_all]. unfold grow_one. rewrite He, Hd. reflexivity.
+  intros Hd Hs Hp Hn. destruct (gen_single _ _ _ _ Hs Hp Hn) as [Ha _].
+  unfold walk_md, walk_root. cbn zeta. rewrite Ha. cbn [grow_all]. unfold grow_one. cbn [no_enc c_enc c_dry c_bf is_default]. rewrite Hd. reflexivity.
 Qed.
 
 Theorem mkdir_root_is_mkdir_md w h c dir input rows t st' :
